@@ -703,6 +703,8 @@ pub fn history_strategy(max_data: usize, max_ops: usize, hostile: bool) -> impl 
             if let Some((f, kind)) = fail {
                 let k = ((f as usize) * (data.len() + 1)) >> 16;
                 feed.sched.fail_at = Some((k, kind));
+                feed.sched.sticky = f & 1 == 1;
+                feed.sched.wrapped = f & 6 == 6;
             }
             History {
                 data,
@@ -750,6 +752,8 @@ pub fn huge_history_strategy() -> impl Strategy<Value = History> {
             if let Some((f, kind)) = fail {
                 let k = ((f as usize) * (data.len() + 1)) >> 16;
                 feed.sched.fail_at = Some((k, kind));
+                feed.sched.sticky = f & 1 == 1;
+                feed.sched.wrapped = f & 6 == 6;
             }
             History {
                 data,
